@@ -153,7 +153,14 @@ impl TableBootstrapInner {
             }
 
             let router_addresses = resolve(&self.routers, self.socket.ip_version()).await;
-            self.table.lock().unwrap().routers = router_addresses.clone();
+            #[cfg(not(kani))]
+            {
+                self.table.lock().unwrap().routers = router_addresses.clone();
+            }
+            #[cfg(kani)]
+            {
+                self.table.lock().unwrap().routers = router_addresses.iter().copied().collect();
+            }
 
             if router_addresses.is_empty() && self.starting_nodes.is_empty() {
                 self.set_state(State::IdleBeforeRebootstrap, line!());
